@@ -24,7 +24,7 @@ claimed = {
    technique="contract-based deductive verification, evaluation rule over the concrete registry with symbolic environment; frame condition checked per lookup", ref="6 (C14)"),
  "C15": dict(cat="proof",
    text="For every registered description the REAL TGoto(col,row) and TColor(fg,bg) are evaluated with fully symbolic 64-bit arguments and proved equal, on every path, to the reference terminfo(5) evaluation of that description's own cup / setaf / setab strings with (row,col) resp. the folded and range-checked colour (bright colours folded iff Colors==8, component elided iff negative or >= Colors).",
-   note="Assumed: the reference terminfo(5) evaluator is the oracle and cup takes (row, column); TPuts padding stripping is not under contract yet (that clause of C15 is not claimed); 'the convention can express' is taken as what the description's own cup string defines.",
+   note="Assumed: the reference terminfo(5) evaluator is the oracle and cup takes (row, column); TPuts is decided by evaluating the real TPuts (with and without a pad character, sleeps as ghost events) on every database string that carries padding and on a fixed padding-grammar corpus against the property's strip definition - bounded for arbitrary strings (no inductive proof), listed as a bounded stand-in; 'the convention can express' is taken as what the description's own cup string defines.",
    technique="contract-based deductive verification, evaluation rule on each concrete description with symbolic positions/colours", ref="6 (C15)"),
  "C08": dict(cat="proof",
    text="Whole-view contracts on every CellBuffer operation (SetContent, GetContent, Dirty, SetDirty, Invalidate, LockCell, UnlockCell, Fill, Resize, Size) proved for all sizes, coordinates, runes, styles and combining slices: the cell written holds exactly what was set (fresh copy of the combining runes, ColorNone merged), every other cell and field is unchanged, out-of-range accesses do nothing, Dirty equals the specification predicate over the last-clean snapshot, wide-rune neighbours are dirtied, Resize keeps the overlap (2-D inductive invariants) and dirties/unlocks everything. Loops cut with inductive invariants; index arithmetic y*w+x is nonlinear and unbounded.",
